@@ -1,6 +1,7 @@
 package ratelimit
 
 //verif:pkg internal/dnsserver/ratelimit
+//verif:noop github.com/patrickmn/go-cache.runJanitor
 
 import (
 	"context"
@@ -224,6 +225,117 @@ func verifC09Responses(steps int) {
 			verifReach("dropped")
 		} else {
 			verifReach("passed")
+		}
+	}
+	verifReach("done")
+}
+
+// verifRefExpiring is the per-subnet reference with the two lifetimes of the limiter:
+// the window state lives for the configured period after the subnet's first counted
+// event, the hit counter (and with it the backoff state) for the configured duration
+// after the first hit.
+type verifRefExpiring struct {
+	ts      []int64
+	hasReq  bool
+	reqBorn int64
+	hasHit  bool
+	hitBorn int64
+	hits    uint64
+}
+
+func (s *verifRefExpiring) event(now int64, num uint, ivl, period, duration int64, backoffCount uint) (drop bool) {
+	if s.hasHit && now > s.hitBorn+duration {
+		s.hasHit, s.hits = false, 0
+	}
+	if s.hasHit && s.hits >= uint64(backoffCount) {
+		return true
+	}
+	if s.hasReq && now > s.reqBorn+period {
+		s.hasReq, s.ts = false, nil
+	}
+	if !s.hasReq {
+		s.hasReq, s.reqBorn = true, now
+	}
+	s.ts = append(s.ts, now)
+	n := len(s.ts)
+	above := false
+	if n > int(num) {
+		above = now-s.ts[n-1-int(num)] <= ivl
+	}
+	if above {
+		if !s.hasHit {
+			s.hasHit, s.hitBorn, s.hits = true, now, 0
+		}
+		s.hits++
+	}
+	return above
+}
+
+// VerifC09Expiry: with finite, different backoff period and duration, the limiter's
+// decisions for one subnet equal the reference in which the window state lives for
+// the period and the backoff state for the duration: a subnet in backoff is dropped
+// until the duration has passed since its first hit, and not longer.
+//
+//verif:harness name=H09d-expiry tier=quick bounds="one IPv4 client; count 1..2, back-off count 1..2; interval, period and duration symbolic (positive, below 2^60); 3 events at symbolic non-decreasing instants" reach=done,dropped,passed,backoff-ended,window-forgotten maxpaths=400000
+//verif:assume clock readings positive, non-decreasing, below 2^61; the cache janitor goroutine does not run (expired entries are invisible to Get either way)
+func VerifC09Expiry() { verifC09Expiry(3) }
+
+// VerifC09Expiry5 is the thorough variant.
+//
+//verif:harness name=H09d-expiry5 tier=thorough bounds="as H09d-expiry with 4 events" reach=done,dropped,passed,backoff-ended,window-forgotten maxpaths=4000000
+//verif:assume as H09d-expiry
+func VerifC09Expiry5() { verifC09Expiry(4) }
+
+func verifC09Expiry(events int) {
+	num := uint(1 + verifChoice(2))
+	backoffCount := uint(1 + verifChoice(2))
+	pos := func() int64 {
+		v := nondetI64()
+		verifAssume(v > 0)
+		verifAssume(v < 1<<60)
+		return v
+	}
+	ivl, period, duration := pos(), pos(), pos()
+	l := NewBackoff(&BackoffConfig{
+		Allowlist:            NewDynamicAllowlist(nil, nil),
+		Period:               time.Duration(period),
+		Duration:             time.Duration(duration),
+		Count:                backoffCount,
+		ResponseSizeEstimate: 12,
+		IPv4Count:            num,
+		IPv4Interval:         time.Duration(ivl),
+		IPv4SubnetKeyLen:     24,
+		IPv6Count:            num,
+		IPv6Interval:         time.Duration(ivl),
+		IPv6SubnetKeyLen:     48,
+	})
+	ip := netip.AddrFrom4([4]byte{198, 51, 100, 7})
+	ref := &verifRefExpiring{}
+	ctx := context.Background()
+	req := &dns.Msg{Question: []dns.Question{{Name: "example.org.", Qtype: dns.TypeA, Qclass: dns.ClassINET}}}
+	var last int64
+	for j := 0; j < events; j++ {
+		now := nondetI64()
+		verifAssume(now > 0)
+		verifAssume(now < 1<<61)
+		verifAssume(now >= last)
+		last = now
+		verifSetClock(now)
+		hadHit, hadReq := ref.hasHit, ref.hasReq
+		want := ref.event(now, num, ivl, period, duration, backoffCount)
+		drop, _, err := l.IsRateLimited(ctx, req, ip)
+		verifAssert("no-error-for-valid-address", err == nil)
+		verifAssert("drop-equals-reference-with-expiry", drop == want)
+		if drop {
+			verifReach("dropped")
+		} else {
+			verifReach("passed")
+		}
+		if hadHit && !ref.hasHit {
+			verifReach("backoff-ended")
+		}
+		if hadReq && ref.hasReq && ref.reqBorn == now && j > 0 {
+			verifReach("window-forgotten")
 		}
 	}
 	verifReach("done")
